@@ -185,6 +185,8 @@ def run(ctx):
     exe = build.cc("h_oom", ["harness/lib/h_oom.c"], daemon=True)
     n_cases, max_k, pairs = (56, 22, 2) if ctx.quick() else (400, 100, 8)      # the thorough tier: about 25 minutes on 16 cores
     jobs = [(exe, ctx.seed * 100003 + i, 12 if i % 3 else 20, max_k, pairs) for i in range(n_cases)]
+    # spelled-out cases first: a queue behind an owner and a newcomer asking to replace, every allocation of that request failed in turn
+    jobs = [(exe, 7000 + k, 0, 400, 0, k) for k in range(len(oomcheck.SCRIPTED))] + jobs
     with ProcessPoolExecutor(14) as ex:
         results = list(ex.map(oomcheck._job, jobs, chunksize=1))
     infra = [r for r in results if "infra" in r]
@@ -242,7 +244,10 @@ def replay(path):
         print("replay: not an OOM case: %s" % data.get("what")); return 1
     os.makedirs(bus.RUNROOT, exist_ok=True)
     exe = build.cc("h_oom", ["harness/lib/h_oom.c"], daemon=True)
-    r = oomcheck._job((exe, rp["seed"], 12 if rp["seed"] % 100003 % 3 else 20, 400, 4))
+    if 7000 <= rp["seed"] < 7000 + len(oomcheck.SCRIPTED):
+        r = oomcheck._job((exe, rp["seed"], 0, 400, 0, rp["seed"] - 7000))
+    else:
+        r = oomcheck._job((exe, rp["seed"], 12 if rp["seed"] % 100003 % 3 else 20, 400, 4))
     probs = [p for p in r.get("problems", []) if classify(r, p) is None]
     print("replay C14: case %s problems=%s" % (rp["seed"], [(p["kind"], p.get("k")) for p in probs][:6]))
     return 1 if probs or "infra" in r else 0
